@@ -195,7 +195,7 @@ Clauses(e) ==
                      (IF e.name = "RemoteLogin" /\ d = e.c THEN Sids(NewSess(P)) ELSE {}),
       LocalOnlyByLogin      |-> P.local \in {local, ""} \/ (e.name = "LocalLogin" /\ P.local = e.u)
     ]
-Failing(e) == {k \in DOMAIN Clauses(e) : ~Clauses(e)[k]}
+Failing(e) == LET C == Clauses(e) IN {k \in DOMAIN C : ~C[k]}
 
 -----------------------------------------------------------------------------
 \* state invariants of the module
